@@ -70,14 +70,18 @@ def gen_cases(ctx):
         add("forget", 0, ns=1)
         for v in prune_variants(th):
             add("prune", v, crash=(v in (1, 16)), ns=(None if v in (0, 1, 5) else 1))
+        # recovery prune after an interrupted prune (duplicate blobs in old and new packs)
+        for v in ((64, 65, 72, 64, 65, 96) if not th else (64, 65, 68, 69, 72, 73, 96, 97, 64, 65)):
+            add("prune", v, ns=1)
         add("config", 0, ns=1); add("key", 0, ns=1); add("key", 1, ns=1)
     return cases
 
 
 def run_harness(exe, lines, tag, timeout=580):
-    path = os.path.join(vlib.BUILD, "C03", "in_%s_%d.txt" % (tag, os.getpid()))
+    import threading
+    path = os.path.join(vlib.BUILD, "C03", "in_%s_%d_%d.txt" % (tag, os.getpid(), threading.get_ident()))
     open(path, "w").write("\n".join(lines) + "\n")
-    rc, out, err = sh2([exe, path], timeout=timeout, env={"RUST_LOG": "off"})
+    rc, out, err = sh2(["nice", "-n", "10", exe, path], timeout=timeout, env={"RUST_LOG": "off"})
     os.remove(path)
     res = []
     for ln in out.splitlines():
@@ -161,7 +165,10 @@ def run(ctx):
                     break
     r["failures"] += named
     cov["source_facts"] = {"regenerated_orders": (meta or {}).get("orders"), "prune_early_guard": (meta or {}).get("prune_early_guard"),
-                           "soft_pin_misses": (meta or {}).get("soft_pin_misses"), "call_sites": len((meta or {}).get("call_sites", []))}
+                           "soft_pin_misses": (meta or {}).get("soft_pin_misses"),
+                           "error_propagation": {k: ({"sites": len(v), "dropped": [x["call"] for x in v if not x["propagated"]]} if k != "writer"
+                                                     else {"facts": len(v), "missing": [x["fact"] for x in v if not x["holds"]]})
+                                                 for k, v in ((meta or {}).get("propagation") or {}).items()}, "call_sites": len((meta or {}).get("call_sites", []))}
     cov["trusted_base"] += ["props/C03/extract.py (reads the textual order and the option guards of the storage-effect call sites of each command function; unrecognised call sites fail loudly)"]
     cov["trusted_base"] += [
         "harness/src/bin/c03.rs: decoding of recorded payloads through the repository's own readers (IndexFile/SnapshotFile via get_file, tree walk via get_tree, pack headers via the C08 hook header_from_file) and the complete read of every visible snapshot (all trees, all file blobs, fresh handle, no cache)",
@@ -187,13 +194,27 @@ def run(ctx):
     corpus = os.path.join(ctx.pdir, "corpus.txt")
     if os.path.exists(corpus):
         cases = [l.strip() for l in open(corpus) if l.strip() and not l.startswith("#")] + cases
-    # several harness processes of bounded length
-    per = 12 if ctx.thorough() else 40
+    # several harness processes of bounded length, NPAR of them at a time (scenarios are independent);
+    # cases are dealt to the chunks longest-first so that the chunks take about equally long
+    npar = int(os.environ.get("C03_PAR", "4"))
+    weight = {"prune": 5, "copy": 4, "rewrite": 3, "backup": 3, "repair_snapshots": 3, "merge": 1}
+    def cost(c):
+        t = c.split()
+        return weight.get(t[0], 1) * int(t[6]) * (2 if t[7] != "0" else 1)
+    nchunks = max(npar, (len(cases) + 11) // 12) if ctx.thorough() else npar
+    chunks = [[] for _ in range(nchunks)]
+    loads = [0] * nchunks
+    for c in sorted(cases, key=cost, reverse=True):
+        i = loads.index(min(loads))
+        chunks[i].append(c); loads[i] += cost(c)
+    chunks = [ch for ch in chunks if ch]
     results, hangs = [], []
-    for ci in range(0, len(cases), per):
-        chunk = cases[ci:ci + per]
+    import concurrent.futures
+    def do_chunk(arg):
+        ci, chunk = arg
+        out, hg = [], []
         rc, res, err = run_harness(impl, chunk, "c%d" % ci)
-        results += res
+        out += res
         if len(res) < len(chunk):
             # the process ended early (hung command or crash): rerun the rest one by one
             done = set(x["case"] for x in res)
@@ -202,9 +223,15 @@ def run(ctx):
                     continue
                 rc1, res1, err1 = run_harness(impl, [c], "s%d" % ci, timeout=400)
                 if res1:
-                    results += res1
+                    out += res1
                 else:
-                    hangs.append((c, rc1, err1[-300:]))
+                    hg.append((c, rc1, err1[-300:]))
+        return out, hg
+    with concurrent.futures.ThreadPoolExecutor(max_workers=npar) as ex:
+        for out, hg in ex.map(do_chunk, list(enumerate(chunks))):
+            results += out; hangs += hg
+    pos = {c: i for i, c in enumerate(cases)}
+    results.sort(key=lambda r_: pos.get(r_["case"], 10 ** 9))
     # a panic while SETTING UP a scenario (e.g. rustic's `index still in use` 100 ms wait under load) is
     # not a result about the command: rerun such a case alone, at most twice
     retried = 0
